@@ -74,6 +74,7 @@ def reads(h, rng, t, bh, keys, full=False):
         h.emit("getkv %d %d %s" % (t, bh, k))
         h.emit("seek %d %d %s" % (t, bh, k))
         h.emit("seek %d %d %s" % (t, bh, rng.choice(keys) + "+00"))
+        h.emit("seek %d %d %s %d" % (t, bh, rng.choice(keys), rng.randrange(1, 4)))      # a cursor that has already yielded entries
     if full or rng.random() < 0.5:
         kinds = "IEU"
         h.emit("range %d %d %s %s %s %s" % (t, bh, rng.choice(kinds), rng.choice(keys), rng.choice(kinds), rng.choice(keys)))
@@ -486,6 +487,8 @@ def g8(seed, shape="multi"):
         h.emit("kvpairs %d %d" % (t, b))
         for k in probes:
             h.emit("seek %d %d %s" % (t, b, k))
+            if rng.random() < 0.3:
+                h.emit("seek %d %d %s %d" % (t, b, k, rng.randrange(1, 6)))       # re-used cursor
             h.emit("get %d %d %s" % (t, b, k))
         bs = probes if len(probes) <= 14 else rng.sample(probes, 14)
         pairs = [(lo, hi) for lo in bs for hi in bs]
@@ -548,6 +551,7 @@ def g7(seed, nkeys=None, keylen=None, ntx=4):
         h.emit("get %d %d %s" % (t, b, k))
         h.emit("getkv %d %d %s" % (t, b, k))
         h.emit("seek %d %d %s" % (t, b, rng.choice(keys + gaps)))
+        h.emit("seek %d %d %s %d" % (t, b, rng.choice(keys + gaps), rng.randrange(1, 4)))
         h.emit("range %d %d %s %s %s %s" % (t, b, rng.choice("IEU"), rng.choice(keys + gaps), rng.choice("IEU"), rng.choice(keys + gaps)))
         h.emit("buckets %d %d" % (t, b))
         h.emit("kvpairs %d %d" % (t, b))
